@@ -13,6 +13,8 @@ import sys
 import time
 
 VERIF = os.path.dirname(os.path.dirname(os.path.abspath(__file__)))
+sys.path.insert(0, VERIF)
+from dst.rec import HarnessError  # noqa: E402
 
 COMPONENTS = {
     'real': ['vivarium.core.engine.Engine', 'vivarium.core.store.Store',
@@ -90,7 +92,12 @@ def replay_file(path, quiet=False):
     with open(path) as f:
         rp = json.load(f)
     prop = rp['property']
-    v, res = first_violation(rp['case'], prop)
+    try:
+        v, res = first_violation(rp['case'], prop)
+    except HarnessError as e:
+        if not quiet:
+            print('replay: the case is not well-formed for the current generator: %s' % e)
+        return False, True, None
     exp = rp['expect']
     same = (v is not None and v['prop'] == exp['prop'] and v['rule'] == exp['rule']
             and v['disc'] == exp['disc'])
